@@ -38,6 +38,9 @@ def jobs(tier, seed):
     js.append(Job("ldpc.construct.rejects_large_N1", "ldpc_set_fec_parameters", "c09_ldpc_set_params.c", ["of_create_pchck_matrix_rfc5170_compliant"],
                   repo_sources=LD + ["src/lib_stable/ldpc_staircase/of_ldpc_staircase_pchk.c"], defines={"OFV_T": 2}, unwind=8, object_bits=10, timeout=600, status="bounded", native=False,
                   bound="six constant (n-k, N1, k) points with N1 > n-k"))
+    # seeding accepts exactly the advertised seed range (the contract is C19's; re-run here because seed validity is part of C09)
+    js.append(Job("ldpc.seed_range.srand_contract", "ldpc_set_fec_parameters", "c19_rand.c", ["of_rfc5170_srand"], defines={"OFV_T": 1},
+                  tu_included=["src/lib_common/of_rand.c"], timeout=600, status="proved"))
     calls = ["build_repair_symbol", "decode_with_new_symbol", "set_available_symbols", "finish_decoding", "is_decoding_complete",
              "get_source_symbols_tab", "set_fec_parameters", "set_callback_functions", "get_control_parameter", "set_control_parameter"]
     bads = {0: ("null_session", range(10)), 1: ("wrong_role", range(0, 6)), 2: ("bad_esi", (0, 1)), 3: ("null_argument", (1, 2, 6))}
